@@ -367,17 +367,30 @@ func (tc *termCtx) exitsAtEOF(li *loopInfo) (bool, string) {
 	wk2 := NewWalker(env, nil)
 	wk = wk2
 	wk2.RetIdx = -1
-	wk2.Visits = 1
-	started := false
+	// (a cycle is complete when the loop is entered again after coming back to its head: a loop steered by a
+	// flag - `for more := true; more; { … more = tok.Type == TokenComma … }` - tests at the head what the cycle
+	// just computed, and leaves there)
+	wk2.Visits = 2
+	headVisits := 0
 	wk2.Stop = func(b *ssa.BasicBlock) bool {
 		if b == li.Head {
-			if started {
-				completed = true
-				why = wk2.why
+			headVisits++
+			if headVisits > 2 {
 				return true
 			}
-			started = true
+			if headVisits == 2 {
+				if _, isIf := b.Instrs[len(b.Instrs)-1].(*ssa.If); !isIf {
+					completed = true
+					why = wk2.why
+					return true
+				}
+			}
 			return false
+		}
+		if headVisits >= 2 && li.Blocks[b] {
+			completed = true
+			why = wk2.why
+			return true
 		}
 		return !li.Blocks[b]
 	}
